@@ -106,6 +106,56 @@ def rely(T, rec, q, rec2, q2, me, except_id=None):
     return z3.And(out)
 
 
+def signal_handlers_outlive_the_sweep(ctx: RunCtx):
+    """Structural obligation over BaseRunner: a stop can be requested by a signal at any moment, including while the stop itself sweeps the
+    table; the handlers that turn SIGINT/SIGTERM into a stop request (installed by on_start) must therefore stay in place until `_on_stop()` has
+    returned: in `on_stop` nothing before the `self._on_stop()` statement may (transitively) call `signal.signal`, and neither may the sweep
+    functions themselves."""
+    import ast
+    from pyvc.solve import Obligation
+    cls = ctx.src.klass(BR, "BaseRunner")
+    methods = {n.name: n for n in cls.body if isinstance(n, (ast.FunctionDef, ast.AsyncFunctionDef))}
+
+    def direct(fn):
+        return any(isinstance(n, ast.Call) and isinstance(n.func, ast.Attribute) and n.func.attr == "signal" and isinstance(n.func.value, ast.Name) and n.func.value.id == "signal"
+                   for n in ast.walk(fn))
+
+    def self_calls(node):
+        return {n.func.attr for n in ast.walk(node) if isinstance(n, ast.Call) and isinstance(n.func, ast.Attribute) and isinstance(n.func.value, ast.Name) and n.func.value.id == "self"}
+    sets = {m for m, fn in methods.items() if direct(fn)}
+    changed = True
+    while changed:
+        changed = False
+        for m, fn in methods.items():
+            if m not in sets and self_calls(fn) & sets:
+                sets.add(m)
+                changed = True
+    bad = []
+    on_stop = methods.get("on_stop")
+    if on_stop is None:
+        bad.append("BaseRunner.on_stop not found")
+    else:
+        seen_sweep = False
+        for stt in on_stop.body:
+            if "_on_stop" in self_calls(stt):
+                seen_sweep = True
+                continue
+            if not seen_sweep and (direct(stt) or (self_calls(stt) & sets)):
+                bad.append(f"on_stop line {stt.lineno}: changes the signal handlers before self._on_stop() has swept the table ({', '.join(sorted(self_calls(stt) & sets)) or 'signal.signal'})")
+        if not seen_sweep:
+            bad.append("on_stop does not call self._on_stop()")
+    for m in ("stop_runner_loop", "_kill_and_reroute"):
+        if m in sets:
+            bad.append(f"{m} changes the signal handlers")
+    if "on_start" not in sets:
+        bad.append("on_start does not install the handlers (signal.signal not found)")
+    ok = not bad
+    o = Obligation(name=f"{PID}/structure/BaseRunner/stop-signal-handlers-stay-installed-until-the-sweep-is-over", kind="lemma", pc=[], goal=z3.BoolVal(ok), function=f"{BR}:BaseRunner.on_stop")
+    o.status, o.backend, o.detail = ("discharged" if ok else "failed"), "ast-scan", " | ".join(bad)[:500]
+    o.extra = {"methods_that_change_handlers": sorted(sets)}
+    return [o]
+
+
 def rely_lemmas(ctx: RunCtx):
     """R* is reflexive and closed under every status request of a task thread that the state machine accepts."""
     T = Types(ctx.src)
@@ -162,6 +212,10 @@ def contracts(T: Types, reg: Registry, G: dict, variant: str = "C11"):
     reg.dropped_calls.append(re.compile(r"(^|\.)_run_stopped\.(set|clear)$"))
     reg.dropped_calls.append(re.compile(r"^context\.(set_|swap_|clear_)"))
     reg.dropped_calls.append(re.compile(r"^log_runner_shutdown$"))
+    reg.dropped_calls.append(re.compile(r"^signal\.(signal|getsignal)$"))      # which handler is installed when: structural obligation signal_handlers_outlive_the_sweep
+    for fn in ("current_thread", "main_thread"):
+        reg.add(Contract(key=f"threading:{fn}", handler=(lambda eng, st, recv, a, kw, fn=fn: [(OK, st, Val(z3.Const("the_" + fn, Atom("ThreadObject").sort()), Atom("ThreadObject")))]),
+                         assumed=True, note="identity of the calling / main thread (an opaque object)"))
     reg.value_methods = getattr(reg, "value_methods", {})
     reg.value_attrs = getattr(reg, "value_attrs", {})
 
@@ -792,10 +846,15 @@ def build(ctx: RunCtx) -> Prop:
         pid=PID, title="stopping the thread runner: every invocation of its table ends final or REROUTED/available, unowned and queued, under "
                        "arbitrary interleaving with the task threads (rely/guarantee over the lifecycle spec)",
         level="other", technique="contract-based deductive verification (AST->z3 VCs) of the loop thread with the task threads as a rely relation proved closed under the lifecycle spec",
-        registry=reg, verify=verify, lemmas=[rely_lemmas], bounded=[stop_in_every_phase],
+        registry=reg, verify=verify, lemmas=[rely_lemmas, signal_handlers_outlive_the_sweep], bounded=[stop_in_every_phase],
+        # what the rely relation takes from the task threads' own operations (a refused retry / reroute leaves queue and counter alone, i.e. the
+        # status write comes before the re-queue: a poller never finds the queue entry of an invocation that is still RUNNING)
+        parts=[("contracts.c03", ["pynenc.orchestrator.base_orchestrator:BaseOrchestrator.set_invocation_retry",
+                                  "pynenc.orchestrator.base_orchestrator:BaseOrchestrator.reroute_invocations"])],
         assumptions=GLUE_ASSUMPTIONS + [
             "a task thread requests status changes for its own invocation only (DistributedInvocation.run) and otherwise registers new invocations",
-            "set_invocation_retry / reroute_invocations of a task thread are atomic for the loop thread (status and queue change together)",
+            "set_invocation_retry / reroute_invocations of a task thread are atomic for the loop thread (status and queue change together); their order "
+            "of effects (status write first, a refused request leaves queue and counter alone) is verified here under the C03 registry",
             "threading.Thread objects are abstract: start() either raises RuntimeError or starts the thread, is_alive()/join() as documented"],
         trusted_base=GLUE_TRUSTED,
         not_decided="process-based runners are covered by C14 (pool) only; faults inside get_invocations_to_run are not modelled.",
